@@ -2,6 +2,7 @@ package nfs
 
 import (
 	"encoding/binary"
+	"sync"
 	"time"
 
 	"github.com/goose-lang/primitive/disk"
@@ -29,6 +30,9 @@ type Nfs struct {
 	// write verifier: changes whenever the server restarts, so that clients
 	// can tell that uncommitted unstable writes may have been lost
 	verf nfstypes.Writeverf3
+	// serializes renames between directories, so that the ancestors of the
+	// target directory cannot change while a directory is being moved
+	renameMu *sync.Mutex
 }
 
 func MakeNfs(d disk.Disk) *Nfs {
@@ -51,6 +55,7 @@ func MakeNfs(d disk.Disk) *Nfs {
 		fsstate:  st,
 		shrinkst: shrinker.MkShrinkerSt(st),
 		Unstable: true,
+		renameMu: new(sync.Mutex),
 	}
 	binary.LittleEndian.PutUint64(nfs.verf[:], uint64(time.Now().UnixNano()))
 	if i.Kind == 0 {
